@@ -1,0 +1,17 @@
+//go:build verif
+
+package server
+
+import "sync/atomic"
+
+var verifSyncFunc atomic.Value // func(point, key string)
+
+// SetVerifSyncFunc registers the harness callback invoked at the end of every handled item of the
+// entity's background loops ("dml", "dml-exit", "event", "event-exit").
+func SetVerifSyncFunc(f func(point string, key string)) { verifSyncFunc.Store(f) }
+
+func verifSync(point string, key string) {
+	if f, ok := verifSyncFunc.Load().(func(point string, key string)); ok && f != nil {
+		f(point, key)
+	}
+}
